@@ -100,7 +100,12 @@ def check_labels(prog, rep):
     for q in ('eigh', 'eig'):
         f = m.func(q)
         rep.instance('FACT-labels', {'function': q})
-        if "iset_leg_labels([a._labels[0], 'eig'])" not in unparse(f):
+        pa = params(f)[0]
+        lab = [c for c in body_nodes(f) if isinstance(c, ast.Call) and
+               call_name(c) in ('iset_leg_labels', 'set_leg_labels') and c.args]
+        good = [c for c in lab if unparse(c.args[0]) in (
+            "[%s._labels[0], 'eig']" % pa, "[%s.get_leg_labels()[0], 'eig']" % pa)]
+        if not good:
             rep.violation('FACT-labels', m, q, 'labels',
                           'eigenvectors must be labelled [a._labels[0], "eig"]', f.lineno)
     # lq delegates to qr of the transpose
